@@ -27,13 +27,16 @@ fn main() {
     let code = match args.id.as_str() {
         "C01" => props::c01::main(&args),
         "C02" => props::c02::main(&args),
+        "C03" => props::c03::main(&args),
         "C04" => props::c04::main(&args),
         "C05" => props::c05::main(&args),
         "C07" => props::c07::main(&args),
         "C08" => props::c08::main(&args),
         "C09" => props::store::main(&args, props::store::Focus::Rollback),
         "C10" => props::store::main(&args, props::store::Focus::Differential),
+        "C11" => props::c11::main(&args),
         "C16" => props::c16::main(&args),
+        "C20" => props::c20::main(&args),
         "C18" => props::c18::main(&args),
         other => {
             eprintln!("unknown property {other}");
